@@ -91,6 +91,8 @@ static const struct tpl_s tpls[] = {
 	{"sec1x3/lim0", 1, 3, {1, 2, 3}, 1, -1},
 	/* kind 2: SECONDLY;INTERVAL=2;COUNT=6 from +2 with EXDATEs at +4 and +8: excluded occurrences are never run */
 	{"sec2x6-ex2", 2, 4, {2, 6, 10, 12}, 2, 0},
+	/* kind 3: SECONDLY;INTERVAL=2;COUNT=3 from +2 plus RDATE +4,+5,+9: +4 is named by both sources (delivered once), +9 by the dates only */
+	{"sec2x3+rdate", 3, 5, {2, 4, 5, 6, 9}, 2, 0},
 };
 
 static size_t
@@ -129,6 +131,12 @@ tpl_body(const struct tpl_s *tp)
 		o += (size_t)snprintf(body + o, sizeof(body) - o, "\n");
 	} else if (tp->kind == 1) {
 		o += (size_t)snprintf(body + o, sizeof(body) - o, "RRULE:FREQ=SECONDLY;INTERVAL=%d;COUNT=%d\n", tp->interval, tp->nocc);
+	} else if (tp->kind == 3) {
+		char x1[32], x2[32], x3[32];
+		tpl_stamp(x1, sizeof(x1), HX_T0 + 4);
+		tpl_stamp(x2, sizeof(x2), HX_T0 + 5);
+		tpl_stamp(x3, sizeof(x3), HX_T0 + 9);
+		o += (size_t)snprintf(body + o, sizeof(body) - o, "RRULE:FREQ=SECONDLY;INTERVAL=2;COUNT=3\nRDATE:%s,%s,%s\n", x1, x2, x3);
 	} else if (tp->kind == 2) {
 		char x1[32], x2[32];
 		tpl_stamp(x1, sizeof(x1), HX_T0 + 4);
@@ -178,7 +186,7 @@ pick_colliding_uids(void)
 }
 
 /* ---------------- events ---------------- */
-enum {E_ADD, E_CANCEL, E_TICK_ONTIME, E_TICK_IDLE, E_TICK_LATE, E_EXIT, E_LIST, E_SCHED, E_ADDOWN, E_ADD2, E_TICK_EXACT, E_TICK_FAIL, E_STOP, E_TICKX, E_ADDGONE, E_ADDANON, E_ADDVANISH, E_ADDNOID, E_ADDREV};
+enum {E_ADD, E_CANCEL, E_TICK_ONTIME, E_TICK_IDLE, E_TICK_LATE, E_EXIT, E_LIST, E_SCHED, E_ADDOWN, E_ADD2, E_TICK_EXACT, E_TICK_FAIL, E_STOP, E_TICKX, E_ADDGONE, E_ADDANON, E_ADDVANISH, E_ADDNOID, E_ADDREV, E_TICKY};
 struct ev_s {
 	int kind;
 	int user;	/* index into users[] */
@@ -270,6 +278,7 @@ evname(char *buf, size_t bsz, const struct ev_s *e)
 	case E_EXIT: snprintf(buf, bsz, e->arg2 ? "KILLED(%d)" : "EXIT(%d)", e->arg); break;
 	case E_STOP: snprintf(buf, bsz, "STOP+CONT(%d)", e->arg); break;
 	case E_TICKX: snprintf(buf, bsz, "TICK(on-time)+EXIT(%d) in one loop iteration", e->arg); break;
+	case E_TICKY: snprintf(buf, bsz, "TICK(on-time) while job %d exits (collected by libev an iteration later)", e->arg); break;
 	case E_LIST: snprintf(buf, bsz, "LIST(%u%s%s%s)", users[e->user], e->arg == 1 ? " as other" : "", e->arg2 ? " ?tuid=" : "", e->arg2 ? uids[e->arg2 - 1] : ""); break;
 	case E_SCHED: snprintf(buf, bsz, "SCHED(%u%s%s)", users[e->user], e->arg2 ? " ?tuid=" : "", e->arg2 ? uids[e->arg2 - 1] : ""); break;
 	}
@@ -279,7 +288,7 @@ evname(char *buf, size_t bsz, const struct ev_s *e)
 static const char*
 evkind(const struct ev_s *e)
 {
-	static const char *const k[] = {"ADD", "CANCEL", "TICK-ontime", "TICK-idle", "TICK-late", "EXIT", "LIST", "SCHED", "ADDOWN", "ADD2", "TICK-exact", "TICK-spawnfail", "STOP", "TICK+EXIT", "ADD-client-gone", "ADD-unknown-peer", "ADD-userdb-fails", "ADD-nameless", "ADD-two-revisions"};
+	static const char *const k[] = {"ADD", "CANCEL", "TICK-ontime", "TICK-idle", "TICK-late", "EXIT", "LIST", "SCHED", "ADDOWN", "ADD2", "TICK-exact", "TICK-spawnfail", "STOP", "TICK+EXIT", "ADD-client-gone", "ADD-unknown-peer", "ADD-userdb-fails", "ADD-nameless", "ADD-two-revisions", "TICK-then-EXIT"};
 	return k[e->kind];
 }
 
@@ -344,6 +353,8 @@ enabled(struct ev_s *ev, int max)
 		if (!dup && prop == 12) PUSH(E_EXIT, 0, 0, i, 1);
 		/* the exit is noticed in the very iteration in which the next occurrence comes due */
 		if (!dup && armed && prop != 11) PUSH(E_TICKX, 0, 0, i);
+		/* ... or just behind libev's look at its signals: the job is gone, libev hears of it an iteration later */
+		if (!dup && armed && prop == 12) PUSH(E_TICKY, 0, 0, i);
 		/* deviation: the job is stopped and continued (job control, a debugger); it is still running */
 		if (!dup && prop == 12) PUSH(E_STOP, 0, 0, i);
 	}
@@ -362,9 +373,11 @@ enabled(struct ev_s *ev, int max)
 				PUSH(E_ADD, u, k, 1);
 				PUSH(E_ADD, u, k, 2);
 				PUSH(E_ADD, u, k, 10);
+				PUSH(E_ADD, u, k, 11);
 			} else if (prop == 4) {
 				for (int tp = 0; tp < 5; tp++) PUSH(E_ADD, u, k, tp);
 				if (k == 0) PUSH(E_ADD, u, k, 10);
+				if (k == 0) PUSH(E_ADD, u, k, 11);
 			} else if (prop == 12 && collide) {
 				/* three UIDs whose hashes force the table-growth path: limits 2, 1 and none */
 				PUSH(E_ADD, u, k, k == 0 ? 6 : k == 1 ? 5 : 7);
@@ -395,6 +408,8 @@ enabled(struct ev_s *ev, int max)
 			} else {
 				PUSH(E_ADD, u, k, 0);
 				PUSH(E_ADD, u, k, 2);
+				/* a task with nothing to come: it must be gone at once, whatever the slot it got has seen before */
+				if (k == 0) PUSH(E_ADD, u, k, 3);
 				PUSH(E_ADDOWN, u, k, 0, 1);
 				PUSH(E_ADDOWN, u, k, 0, 2);
 				if (k == 0) {
@@ -583,7 +598,7 @@ apply(const struct ev_s *e)
 	struct hx_reply_s rp;
 	char shape[96];
 	const char *k = evkind(e);
-	int tickx_hi = -1;
+	int tickx_hi = -1, ticky_hi = -1, ticky_ci = -1;
 
 	memset(just_retired, 0, sizeof(just_retired));
 	evname(name, sizeof(name), e);
@@ -834,6 +849,19 @@ apply(const struct ev_s *e)
 		}
 	}
 		/*@fallthrough@*/
+	case E_TICKY:
+		if (e->kind == E_TICKY) {
+			ticky_ci = e->arg;
+			for (int q = 0; q < hx_nchld; q++) {
+				if (hx_chld[q]->pid == M.chld[ticky_ci].pid) ticky_hi = q;
+			}
+			if (ticky_hi < 0) {
+				snprintf(shape, sizeof(shape), "after=%s", k);
+				report("child-unwatched", shape, "execution %d is not watched by the daemon", M.chld[ticky_ci].pid);
+				break;
+			}
+		}
+		/*@fallthrough@*/
 	case E_TICK_ONTIME:
 	case E_TICK_IDLE:
 	case E_TICK_EXACT:
@@ -841,7 +869,7 @@ apply(const struct ev_s *e)
 	case E_TICK_LATE: {
 		double to;
 		double ear = m_earliest();
-		if (e->kind == E_TICK_ONTIME || e->kind == E_TICK_FAIL || e->kind == E_TICKX) {
+		if (e->kind == E_TICK_ONTIME || e->kind == E_TICK_FAIL || e->kind == E_TICKX || e->kind == E_TICKY) {
 			to = ear < 1e299 ? ear + 0.001 : hx_now + 1.0;
 			if (to <= hx_now) to = hx_now + 0.001;
 		} else if (e->kind == E_TICK_IDLE) {
@@ -896,6 +924,18 @@ apply(const struct ev_s *e)
 		hx_spawn_fail = e->kind == E_TICK_FAIL && e->arg == 1;
 		if (tickx_hi >= 0) {
 			hx_tick_exit(tick_to, tickx_hi, 0);
+		} else if (ticky_hi >= 0) {
+			const int pid = M.chld[ticky_ci].pid;
+			const int stolen = hx_tick_then_exit(tick_to, ticky_hi, 0);
+			/* model: the tick saw the job still running, now it is gone */
+			struct mtask_s *t = m_find(M.chld[ticky_ci].uid);
+			if (t && t->gen == M.chld[ticky_ci].gen && t->running > 0) t->running--;
+			memmove(&M.chld[ticky_ci], &M.chld[ticky_ci + 1], sizeof(M.chld[0]) * (size_t)(M.nchld - ticky_ci - 1));
+			M.nchld--;
+			if (stolen) {
+				snprintf(shape, sizeof(shape), "after=%s", k);
+				report("child-stolen", shape, "the daemon itself waited for execution %d: libev will never hear of its exit, the task's count of running jobs stays up", pid);
+			}
 		} else {
 			hx_tick(tick_to);
 		}
@@ -959,6 +999,16 @@ apply(const struct ev_s *e)
 		}
 	}
 	check_state(e, s0, exp_spawn, exp_nd);
+	/* the daemon must stay able to hear of its jobs' exits */
+	{
+		sigset_t cur;
+		if (sigprocmask(SIG_BLOCK, NULL, &cur) == 0 && sigismember(&cur, SIGCHLD) && !pruned_violation) {
+			snprintf(shape, sizeof(shape), "after=%s", k);
+			report("sigchld-blocked", shape, "SIGCHLD is blocked when the daemon goes back to its loop: no exit of a job is noticed any more");
+			sigdelset(&cur, SIGCHLD);
+			sigprocmask(SIG_SETMASK, &cur, NULL);
+		}
+	}
 	/* a task with nothing left to run may be dropped whenever the daemon likes: follow it */
 	{
 		struct hx_task_s obs[HX_MAXTASKS];
@@ -1516,7 +1566,7 @@ busy_mode(int variant)
 		}
 	} else {
 		/* many distinct UIDs in one daemon life */
-		const int N = variant == 2 ? 300 : 1500;
+		const int N = variant == 2 ? 700 : 1500;	/* 700: past the first growth of the UID string table */
 		snprintf(hist, sizeof(hist), "%d x ADD(1000, job-<i>@bulk.example), 3 x ADD(1001, few-<i>), checkpoint timer, the files, GET /queue by 1001, then CANCEL of every UID by its owner", N);
 		vd_desc("%s", hist);
 		snprintf(shape, sizeof(shape), "busy/many-uids");
